@@ -39,6 +39,29 @@ MULTIMAP = "MultiMap<String, String>"
 GROUPS = "[(String, Vec<String>)]"
 
 
+CHAR_RX = re.compile(r"'(?:\\.|[^\\'\n])'")
+
+
+def gff_tokenize(text, base):
+    """the tokenizer of rs2lean_cfbase.py plus `char` literals (`'x'`, `'\\''`; a lifetime `'a` has no closing quote)"""
+    toks, i, n = [], 0, len(text)
+    while i < n:
+        m = CHAR_RX.match(text, i)
+        if m:
+            toks.append(cb.Tok("char", m.group(0), base + i))
+            i = m.end()
+            continue
+        m = cb.TOKEN_RX.match(text, i)
+        if not m:
+            raise Unsupported("cannot tokenise `%s`" % text[i:i + 12].split("\n")[0], base + i)
+        i = m.end()
+        if m.lastgroup == "ws":
+            continue
+        toks.append(cb.Tok(m.lastgroup, m.group(0), base + m.start()))
+    toks.append(cb.Tok("eof", "<end of function>", base + n))
+    return toks
+
+
 def str_bytes(tok_text, pos=None):
     """Rust string literal token → list of UTF-8 bytes"""
     if not (tok_text.startswith('"') and tok_text.endswith('"')):
@@ -83,6 +106,36 @@ class GffPX(PX):
                 args.append(self.expr())
             self.expect(")")
             return ("format", s.text, args, p.pos)
+        if p.kind == "char":
+            self.next()
+            body = p.text[1:-1]
+            esc = {"\\n": 10, "\\t": 9, "\\r": 13, "\\\\": 92, "\\'": 39, '\\"': 34, "\\0": 0}
+            if body in esc:
+                v = esc[body]
+            elif len(body) == 1:
+                v = ord(body)
+            else:
+                raise Unsupported("char literal %s" % p.text, p.pos)
+            return ("num", v, "char", p.pos)
+        if self.at("|") and not self.at("|", 1):
+            # closure with parameter types kept (`|s: &str| …`); the untyped form is parsed by the base class
+            save = self.i
+            self.next()
+            params, tys = [], []
+            while not self.at("|"):
+                params.append(self.pat())
+                if self.at(":"):
+                    self.next()
+                    tys.append(self.ty())
+                else:
+                    tys.append(None)
+                if self.at(","):
+                    self.next()
+            self.next()
+            if self.at("->"):
+                raise Unsupported("closure with a return type", self.peek().pos)
+            body = self.expr()
+            return ("closure", params, body, p.pos, tys)
         if p.kind == "id" and p.text == "vec" and self.at("!", 1) and self.at("[", 2):
             self.next()
             self.next()
@@ -146,7 +199,17 @@ class GffPX(PX):
                 continue
             if self.at("return"):
                 raise Unsupported("`return` (dialect gff translates expression-bodied functions only)", self.peek().pos)
-            if self.peek().kind == "id" and self.peek().text in ("for", "while", "loop"):
+            if self.at("for"):
+                pos = self.next().pos
+                pt = self.pat()
+                self.expect("in")
+                it = self.expr(nostruct=True)
+                body = self.block()
+                if body[2] is not None:
+                    raise Unsupported("`for` body with a tail expression", pos)
+                stmts.append(("for", pt, body, it, pos))
+                continue
+            if self.peek().kind == "id" and self.peek().text in ("while", "loop"):
                 raise Unsupported("`%s` loop (dialect gff has no loops)" % self.peek().text, self.peek().pos)
             pos = self.peek().pos
             if self.at("if") and not self.at("let", 1):
@@ -175,6 +238,10 @@ class GffPX(PX):
                     self.next()
                     stmts.append(("push", e[1], None, e[3][0], pos))
                     continue
+                if e[0] == "mcall" and e[2] == "insert" and len(e[3]) == 2 and e[1][0] == "path" and len(e[1][1]) == 1:
+                    self.next()
+                    stmts.append(("insert", e[1], e[3][0], e[3][1], pos))
+                    continue
                 if (e[0] == "mcall" and e[2] in ("sort", "sort_unstable", "sort_by", "sort_unstable_by", "sort_by_key", "sort_unstable_by_key")
                         and e[1][0] == "path" and len(e[1][1]) == 1):
                     self.next()
@@ -196,6 +263,8 @@ class GffPX(PX):
 class GffTr(Tr):
     def lean_ty(self, t):
         t = t.strip()
+        if t in self.unit.get("types", {}):
+            return self.unit["types"][t]
         if t in STR_TYS:
             return "List Nat"
         if t == "char":
@@ -214,10 +283,51 @@ class GffTr(Tr):
         lines = []
         env = dict(env)
         for (kind, p, ty, e, pos) in b[1]:
+            if kind == "let" and e[0] == "closure" and p[0] == "pvar":
+                # a local function: `let f = |x: T| e;`
+                if len(e) < 5 or len(e[1]) != 1 or e[4][0] is None or e[1][0][0] != "pvar":
+                    raise Unsupported("local closure without one typed parameter", pos)
+                env2 = dict(env)
+                env2[e[1][0][1]] = e[4][0]
+                sub = []
+                before = self.monadic
+                c, t = self.expr(e[2], env2, sub)
+                if sub or self.monadic != before:
+                    raise Unsupported("local closure whose body has statements or can panic", pos)
+                lines.append("let %s := fun (%s : %s) => %s" % (lname(p[1]), lname(e[1][0][1]), self.lean_ty(e[4][0]), c))
+                env[p[1]] = "fn:%s" % t
+                continue
             if kind == "let":
                 code, t = self.expr(e, env, lines)
                 t = ty or t
                 lines.append("let %s := %s" % (self.pat_code(p, env, t), code))
+                continue
+            if kind == "insert":
+                v = p[1][0]
+                if env.get(v) != MULTIMAP or self.lean_ty(MULTIMAP) != "List (List Nat × List Nat)":
+                    raise Unsupported("`.insert(..)` on `%s` (only a local MultiMap read as its insertion sequence)" % v, pos)
+                kc, _ = self.expr(ty, env, lines)
+                vc, _ = self.expr(e, env, lines)
+                lines.append("let %s := %s ++ [(%s, %s)]" % (lname(v), lname(v), kc, vc))
+                continue
+            if kind == "for":
+                # `for pat in items { … }` over a list, the body updating one local accumulator = `List.foldl`
+                accs = sorted(set(mutated_locals(ty)))
+                if len(accs) != 1 or accs[0] not in env:
+                    raise Unsupported("`for` loop that updates %s (exactly one local accumulator is read)" % (accs or "nothing"), pos)
+                a = accs[0]
+                it, tit = self.expr(e, env, lines)
+                et = self.elem_ty(tit)
+                if et is None:
+                    raise Unsupported("`for` over a value of type %s" % tit, pos)
+                env2 = dict(env)
+                pc = self.pat_code(p, env2, et)
+                before = self.monadic
+                ls, _, _ = self.block(ty, env2, None)
+                if self.monadic != before or (self.mode_monadic and not getattr(self, "_probing", False)):
+                    raise Unsupported("`for` loop in a function that can panic", pos)
+                body = "\n" + "".join("    " + l.replace("\n", "\n    ") + "\n" for l in ls) + "    " + lname(a)
+                lines.append("let %s := List.foldl (fun %s %s => %s) %s %s" % (lname(a), lname(a), pc, body, lname(a), atom(it)))
                 continue
             if kind == "permute":
                 # `xs.sort…(..)`: whatever the comparison, the slice afterwards is a permutation of the slice before
@@ -303,6 +413,12 @@ class GffTr(Tr):
             return c, "char"
         if k == "field" and self.self_field_place(e) == "inner" and self.f.get("inner"):
             return "inner", self.f["inner"]
+        if k == "index" and e[2][0] == "str":
+            c, t = self.expr(e[1], env, lines)
+            name = e[2][1][1:-1]
+            if t != "Captures" or name not in ("key", "value"):
+                raise Unsupported("`[%s]` on a value of type %s" % (e[2][1], t), e[3])
+            return atom(c) + (".1" if name == "key" else ".2"), "str"
         if k == "try":
             if not self.f.get("result"):
                 raise Unsupported("`?` in a function that is not declared `result`", e[2])
@@ -334,6 +450,11 @@ class GffTr(Tr):
     def call(self, e, env, lines):
         path, args, pos = e[1], e[2], e[3]
         key = "::".join(path)
+        if len(path) == 1 and str(env.get(key, "")).startswith("fn:") and len(args) == 1:
+            c, t = self.expr(args[0], env, lines)
+            return "%s %s" % (lname(key), atom(c)), env[key][3:]
+        if key == "MultiMap::new" and not args:
+            return "[]", MULTIMAP
         if key == "Ok" and len(args) == 1 and self.f.get("result"):
             c, t = self.expr(args[0], env, lines)
             return c, t
@@ -398,6 +519,18 @@ class GffTr(Tr):
             return "serialize %s (Rs.csvFields [%s])" % (atom(c), ", ".join(parts)), "csv::Result<()>"
         if m == "map_err" and len(args) == 1 and args[0][0] == "closure" and self.f.get("result"):
             return self.expr(recv, env, lines)          # errors are erased (`Except Unit`)
+        if m == "split" and len(args) == 1:
+            c, t = self.expr(recv, env, lines)
+            x, tx = self.expr(args[0], env, lines)
+            if t not in STR_TYS or tx != "char":
+                raise Unsupported("`.split(..)` on %s with a pattern of type %s" % (t, tx), pos)
+            return "Rs.splitChar %s %s" % (atom(x), atom(c)), "[str]"
+        if m == "trim_matches" and len(args) == 1:
+            c, t = self.expr(recv, env, lines)
+            a0 = args[0]
+            if t not in STR_TYS or a0[0] != "num" or a0[2] != "char" or a0[1] >= 128:
+                raise Unsupported("`.trim_matches(..)` (only on a string, with an ASCII char literal)", pos)
+            return "Rs.trimByte %d %s" % (a0[1], atom(c)), "str"
         if m == "into" and not args:
             c, t = self.expr(recv, env, lines)
             if t not in INT_W:
@@ -436,7 +569,7 @@ class GffTr(Tr):
 
     def translate(self, body, start):
         f = self.f
-        toks = apply_rewrites(tokenize(body, start), self.unit.get("rewrites", []) + f.get("rewrites", []))
+        toks = apply_rewrites(gff_tokenize(body, start), self.unit.get("rewrites", []) + f.get("rewrites", []))
         p = GffPX(toks)
         b = p.block_body("<eof>")
         if p.peek().kind != "eof":
@@ -449,7 +582,9 @@ class GffTr(Tr):
         for n, t in f.get("params", []):
             env[n] = t
         self.mode_monadic = True
+        self._probing = True
         self.block(b, env, None)
+        self._probing = False
         mon = self.monadic or f.get("force_monadic", False) or bool(f.get("result"))
         self.ntemp, self.used_abs = 0, []
         self.mode_monadic = mon
@@ -489,6 +624,19 @@ class _NoAttrs:
     def __init__(self, src):
         self.code = re.sub(r"#\[[^\]\n]*\]", lambda m: " " * len(m.group(0)), src.code)
         self.line_of = src.line_of
+
+
+def mutated_locals(block):
+    """names of the local variables the statements of a block update (`x.insert(..)`, nested `for`)"""
+    out = []
+    for st in block[1]:
+        if st[0] == "insert":
+            out.append(st[1][1][0])
+        elif st[0] == "for":
+            out.extend(mutated_locals(st[2]))
+        elif st[0] in ("assign", "push", "permute", "ifstmt"):
+            out.append("<%s>" % st[0])
+    return out
 
 
 def ast_sig(e):
@@ -637,10 +785,24 @@ unit(name="SrcGff", file="src/io/gff.rs", props="property C13", variables=["ω",
               pinned_fields={"inner": "csv::WriterBuilder::new().delimiter(9).flexible(true).from_writer(writer)"}),
      ])
 
+COLS = [("seqname", "String"), ("source", "String"), ("feature_type", "String"), ("start", "u64"), ("end", "u64"),
+        ("score", "String"), ("strand", "String"), ("phase", "Phase"), ("raw_attributes", "String")]
+
 unit(name="SrcGffRead", file="src/io/gff.rs", props="property C13",
-     types={"Phase": "Option Nat", "Option<u8>": "Option Nat"},
+     # the reader's MultiMap is read as its insertion sequence of (key, value) pairs (`insert` appends)
+     types={"Phase": "Option Nat", "Option<u8>": "Option Nat", MULTIMAP: "List (List Nat × List Nat)", "Regex": "Unit",
+            "Captures": "(List Nat × List Nat)"},
+     abstract=[("captures", "List Nat → List (List Nat × List Nat)")],
+     decls={"Records": dict(kind="struct", head="pub struct Records<'a, R: io::Read>", lean="Records", skip=["inner"]),
+            "Record": dict(kind="struct", head="pub struct Record", lean="Record")},
+     methods={".captures_iter": dict(lean="captures", recv=False, ret="[Captures]")},
      calls={"Self::validate": dict(lean="validate", ret="Option<u8>")},
      functions=[
+         # the closure of `Records::next` that builds the record from the nine deserialised columns (pinned by its parameter list)
+         dict(name="next (record closure)", key="next_closure", lean="recordOfColumns",
+              within="impl<'a, R: io::Read> Iterator for Records<'a, R>",
+              header="|( seqname, source, feature_type, start, end, score, strand, phase, raw_attributes, )|",
+              self_ty="Records", params=COLS, ret="Record", abs=["captures"], theorem="recordOfColumns_eq_model"),
          dict(name="validate", lean="validate", within="impl Phase", header="fn validate<T: Into<u8>>(p: T) -> Option<u8>",
               params=[("p", "u8")], ret="Option<u8>", theorem="validate_eq_model"),
          dict(name="deserialize", lean="phaseDeserialize", within="impl<'de> Deserialize<'de> for Phase",
